@@ -1099,7 +1099,11 @@ pub fn main(ctx: &Ctx) -> i32 {
             let mut out = RunOut::default();
             if d["sponge"].as_bool() == Some(true) {
                 let only = d["call"].as_u64().zip(d["limb"].as_u64()).map(|(c, l)| (c as usize, l as usize));
-                crate::props::c04sponge::run(&rctx, idx, only, &mut out);
+                if d["merkle"].as_bool() == Some(true) {
+                    crate::props::c04sponge::run_merkle(&rctx, idx, only, &mut out);
+                } else {
+                    crate::props::c04sponge::run(&rctx, idx, only, &mut out);
+                }
             } else {
                 npo_cells_run(&rctx, idx, &mut out);
             }
@@ -1128,6 +1132,7 @@ pub fn main(ctx: &Ctx) -> i32 {
         // sponge rows re-executed by a faulty witness generator (hook H3): every fourth run of C04
         if prop == "C04" && idx % 4 == 3 {
             crate::props::c04sponge::run(ctx, idx, None, &mut out);
+            crate::props::c04sponge::run_merkle(ctx, idx, None, &mut out);
         }
         let mut d = crate::core::prng::Digest::new();
         d.u64(out.evals);
